@@ -624,8 +624,12 @@ void parallel_for(
         static_cast<ssize_t>(maxThreads),
         options.wait,
         options.reuseExistingState,
-        granularity);
-    runTail();
+        granularity,
+        range.end,
+        hasTail);
+    if (options.wait) {
+      runTail();
+    }
     return;
   }
 
